@@ -32,9 +32,9 @@ T = [
 ("C09",1,"db19/index","TestDemoC09_1","iterator parked on a key of the transaction's own buffer which the transaction then deletes/updates in place","caught","C09.1 every change of chunks paired with modCount++"),
 ("C09",2,"db19/index","TestDemoC09_2","skip-scan iterator re-seeked after the overlay changed, current key 3rd or later of its prefix group","MISSED (out of reach)","none: the defect is in the search arithmetic of btree Seek; no structural rule"),
 ("C11",1,"db19/index/ixbuf","TestDemoC11_1","input with chunks large, small, large followed by two more inputs with interleaved keys","caught","C11.3 merge never stores into its inputs"),
-("C11",2,"db19/index/ixbuf","TestDemoC11_2","delete tombstone surviving in an earlier buffer, later buffer re-adds the key as first key of its remaining chunk","MISSED (out of reach)","none: pass-through condition of the k-way merge is algorithmic"),
+("C11",2,"db19/index/ixbuf","TestDemoC11_2","delete tombstone surviving in an earlier buffer, later buffer re-adds the key as first key of its remaining chunk","missed","C11.6 (added): merge.passthru folded with 'buffer not empty, keys equal' and every other leaf unknown must refuse"),
 ("C21",1,"dbms/query","TestDemoC21_1","table with a foreign key created and dropped within one persist interval","missed","C21.5 (added): pending metaUpdate maps not replaced after use"),
-("C21",2,"dbms/query","TestDemoC21_2","self-referencing foreign key and alter drop of an index in front of it","MISSED (out of reach)","none: which back links need renumbering is semantics of the relinking"),
+("C21",2,"dbms/query","TestDemoC21_2","self-referencing foreign key and alter drop of an index in front of it","missed","C21.6 (added): renumbering calls guarded by nothing but 'has a foreign key', with the loop position"),
 ("C40",1,"dbms","TestDemoC40_1$","GetOne with a read-only transaction number after another session committed","missed","C40.5 (added): connection-level fallback only when no transaction was named"),
 ("C40",2,"dbms","TestDemoC40_2$","a handler that panics after it started writing the response","caught","C40.2e error reply = ResetWrite, false, …"),
 ("C40",3,"dbms","TestDemoC40_3$","two sessions on one connection served by different workers","missed","C40.4 (added): per-request parameters reach the session on every path"),
@@ -49,7 +49,7 @@ T = [
 ("C02",1,"db19","TestDemoSnapshotStableAcrossCommit","a read transaction started before another transaction's commit reads again afterwards","caught","C02.2 K12 (LayeredOnto writes the published Meta)"),
 ("C02",2,"db19","TestDemoSnapshotStableAcrossColumnRename","a transaction started before alter rename of an indexed column looks at the table's indexes again","caught","C02.2 K12 (stores into index definitions obtained from Hamt.Get)"),
 ("C15",1,"util/hamt","TestDemoPullUpKeepsOldVersions","delete of a key whose slot has a child node with >=2 values while an older frozen version is still in use","caught","C15.1 node written without fresh/dup/generation fact"),
-("C15",2,"util/hamt","TestDemoChainCycles","a chain with >=2 chunks and a persist cycle that modifies no item, then reading back from the returned offset","MISSED (out of reach)","none: which chunk offset WriteChain returns is chain content, declared not decided"),
+("C15",2,"util/hamt","TestDemoChainCycles","a chain with >=2 chunks and a persist cycle that modifies no item, then reading back from the returned offset","missed","C15.7 (added): WriteChain folded: returned offset is the head of the returned chain, new chunk links to the last kept one"),
 ("C16",1,"db19","TestDemoPersistKeepsSizeNeutralChanges","a same-length update as the only unpersisted change of a table, then persist","missed","C16.5 (added): persist asks Overlay.Modified"),
 ("C16",2,"db19","TestDemoMergeQueueAcrossSchemaChange","two commits queued at once whose transactions started on either side of a schema change","missed","C16.6 (added): the drain loop keeps every received commit"),
 ("C17",1,"db19","TestDemoC17_1","an abort sent while a message of the same transaction is still queued","caught","C17.2 message carries the id of its own transaction"),
@@ -58,12 +58,28 @@ T = [
 ("C34",2,"db19","TestDemoC34_2","timestamp ahead of the wall clock at tick time","caught","C34.3 ticker stores only on the later-than-timestamp edge"),
 ("C19",1,"db19","TestDemoC19_1","a requested time exactly equal to a state's time","caught","C19.2 stateAsof stops exactly on t <= asof (evaluated)"),
 ("C19",2,"db19","TestDemoC19_2","multi-chunk store, next state in a later chunk at a lower in-chunk position","missed","C19.3 (added): chunk loop re-assigns the in-chunk bound every iteration"),
-("C14",1,"core","TestDemoC14_1","a record whose total length is exactly 65536","MISSED (out of reach)","none: record header size classes are declared not decided (boundary arithmetic)"),
+("C14",1,"core","TestDemoC14_1","a record whose total length is exactly 65536","missed","C14.4 (added): tblength / mode / buildOffsets folded around both class boundaries; readers decode that width"),
 ("C14",2,"dbms/mux","TestDemoC14_2","integers with |i| >= 2^62 on the wire","missed","C14.3 (added): zig-zag prologue/epilogue folded on boundary values"),
 ("C42",2,"builtin","TestSeedC42_EndedByBlockThenThrow","a block that completes the transaction itself and then throws","caught","C42.2 scenarios 'already ended'"),
+("C24",1,"dbms/query","TestDemoUpdateWhereOnUpdatedIndexedColumn","an update whose where clause is served by an index over a column the set clause changes","missed","C24.5 (added): the update's source query is set up over a key"),
+("C24",2,"dbms/query","TestDemoUpdateCountWhenSetIsNoOpForSomeRows","a set clause that leaves some selected rows unchanged","missed","C24.6 (added): the count is incremented on every path from a selected row to the next"),
+("C25",1,"compile","TestDemoConstantOnLeftComparison","a constant on the left of <=","missed","C25.6 (added): reverseBinary is the order-reversal involution, inverseBinary the negation"),
+("C25",2,"dbms/query","TestDemoQueryRangeExprSameAsLanguage","a stored value equal to an exclusive upper bound, raw evaluation","missed","C25.7 (added): InRange.EvalRaw folded for 20 orderings"),
+("C26",1,"core","TestDemoIntegerArithmeticBoundaries$","MinInt64 * -1","caught","C26.2 overflow predicates exact on the boundary vectors"),
+("C26",2,"core","TestDemoIntegerArithmeticBoundaries2","x - MinInt64 and unary minus of MinInt64","caught","C26.2"),
+("C31",1,"dbms/query","TestDemoUnterminatedStringEndingInEscapedQuote","an unterminated literal whose last quote character is escaped","caught","C31.1 end-of-input edges of string scanners return tok.Error"),
+("C31",2,"dbms/query","TestDemoDisplayedConstantEvaluatesBack","a terminated literal containing \\x00","missed","C31.2 (added): the sentinel is compared only with a byte whose reaching definition is read()/peek()"),
+("C32",1,"compile/lexer","TestDemoLexerTerminatesAndTilesOnAnyByte","a NUL byte in the source","missed","C32.4 (added): read advances the cursor before every return that loaded a byte"),
+("C32",2,"compile/lexer","TestDemoLexerSpansOfMalformedLiterals","an unterminated literal with an escape","caught","C32.3 item positions are the start captured before the first read"),
+("C35",1,"core","TestSeedC35_1","copy of a record holding an invalidated rule field","missed","C35.4 (added): a record literal built from the receiver's data carries dependents and invalid"),
+("C35",2,"core","TestSeedC35_2","a rule reading a field that does not exist yet","missed","C35.5 (added): addDependent is not guarded by the looked-up value"),
+("C36",1,"core","TestSeedC36_1","Insert into the list while the named member len(list)+1 exists","missed","C36.5 (added): every growth of the list is followed by migrate()"),
+("C36",2,"core","TestSeedC36_2","two lazy copies; the first unshares when the count drops to zero","missed","C36.6 (added): leaving a shared counter is followed by a fresh counter on every path"),
+("C43",1,"core","TestSeedC43_1","container default and concurrent Get of a missing member (-race)","caught","C43.1 lockset: write under the read lock"),
+("C43",2,"core","TestSeedC43_2","a concurrent closure doing x += 1 on a shared slot (-race)","caught","C43.1 lockset: shared slot written without its lock"),
 ]
 conf = {}
-for log in ("/tmp/seed/confirm.log", "/tmp/seed/confirm2.log", "/tmp/seed/confirm3.log", "/tmp/seed/confirm4.log"):
+for log in ("/tmp/seed/confirm.log", "/tmp/seed/confirm2.log", "/tmp/seed/confirm3.log", "/tmp/seed/confirm4.log", "/tmp/seed/confirm4a.log", "/tmp/seed/confirm4b.log", "/tmp/seed/confirm5.log"):
     if not os.path.exists(log): continue
     cur = None
     for l in open(log):
